@@ -174,7 +174,7 @@ func init() {
 				{Name: "lists", Serial: true, Bounds: engine.Bounds{InputDev: -1},
 					Rule: "lists of length 0..3 from 4 distinct points (with repeats): output i is the ID of input i (length and order), both APIs; a nil element anywhere is an error; non-trivial = distinct lists of length >= 2",
 					Body: func(c *engine.Ctx) {
-						pts := [][3]float64{{139.7, 35.6, 10}, {-0.1, 51.5, -3}, {180, -84, 0}, {-180, 84, 1e6}}
+						pts := [][3]float64{{139.7, 35.6, 10}, {-0.1, 51.5, -3}, {180, -84, 0}, {-180, 84, 1e6}, {139.7, 35.6, -900}}
 						n := c.In("len", 4)
 						var list []*object.Point
 						var idx []int
